@@ -661,51 +661,149 @@ def note_case(ck, case, out, dev):
     del blocked_at_end
 
 
-def connect_returns(ck):
-    """the complete ContactlessFrontend.connect() around the run loop: it must return (False) when
-    the run loop meets an input/output or security error"""
-    for cause in ('ioerror', 'secerr', 'none', 'disc'):
-        for role in ('initiator', 'target'):
-            sch = S.Sched()
-            res = {}
-            with S.install(sch, L.MODULES):
-                peer = L.Peer(sch, cause, 2)
-                clf = nfc.clf.ContactlessFrontend()
-                clf.device = object()           # connect() only tests that a device is present
-                mac_cls = nfc.dep.Initiator if role == 'initiator' else nfc.dep.Target
+class Overrun(BaseException):
+    """raised by the scripted device to unwind a connect() that keeps searching after the link ended"""
 
-                def fake_activate(self, **kw):
-                    self.exchange = peer.exchange
-                    self.deactivate = lambda **k: None
-                    self.rwt = 0.001
-                    return L.GB
-                saved = mac_cls.activate
-                mac_cls.activate = fake_activate
+
+CONNECT_EXPECT = {'disc': True, 'none': True, 'commerr': True, 'terminate': True,
+                  'ioerror': False, 'secerr': False, 'kbdint': False}
+# minimised past failures first: (cause, exchange index of the end, role, device recovers afterwards)
+CONNECT_CORPUS = [('ioerror', 0, 'initiator', True), ('ioerror', 1, 'target', True), ('secerr', 2, 'initiator', True),
+                  ('ioerror', 2, 'initiator', False)]
+
+
+def connect_once(cause, end_at, role, recover, chooser=None):
+    """the REAL ContactlessFrontend.connect(llcp=...) over a scripted MAC: the first activation finds the
+    peer, the conversation ends at exchange `end_at` by `cause`; afterwards the peer is gone (every further
+    activation is a device call that finds nothing; if the device does not recover it raises IOError).
+    An application thread started from on-connect blocks in recv() meanwhile."""
+    sch = S.Sched(chooser, max_steps=3000)
+    res = {'after_end': 0, 'activations': 0}
+    with S.install(sch, L.MODULES):
+        peer = L.Peer(sch, cause, end_at)
+        clf = nfc.clf.ContactlessFrontend()
+        clf.device = object()                 # connect() only tests that a device is present
+        saved = (nfc.dep.Initiator.activate, nfc.dep.Target.activate)
+
+        def fake_activate(self, **kw):
+            sch.point('activate')
+            want = nfc.dep.Initiator if role == 'initiator' else nfc.dep.Target
+            res['activations'] += 1
+            if res['activations'] > 1 or peer.ended or peer.terminate_cb():
+                res['after_end'] += 1
+                if res['after_end'] > 3:
+                    raise Overrun()
+                if not recover:
+                    raise IOError(19, 'device gone')
+                sch.sleep(0.005)
+                return None                    # nobody there any more
+            if type(self) is not want:
+                return None
+
+            def deact(**k):
+                if not recover:
+                    raise IOError(19, 'device gone')
+            self.exchange = peer.exchange
+            self.deactivate = deact
+            self.rwt = 0.001
+            return L.GB
+
+        def on_connect(llc):
+            s = sock(llc, RAW)
+            s.bind(40)
+
+            def app():
                 try:
-                    def body():
-                        try:
-                            res['r'] = ('returned', clf.connect(llcp={'role': role, 'on-release': lambda llc: True}))
-                        except SystemExit:
-                            res['r'] = ('SystemExit', None)
-                        except S.Abort:
-                            raise
-                        except BaseException as e:  # noqa
-                            res['r'] = (type(e).__name__, str(e)[:60])
-                    sch.spawn(body, 'main')
-                    blocked = sch.run()
-                    sch.shutdown()
-                finally:
-                    mac_cls.activate = saved
-            ck.case(('connect', cause, role), True)
+                    s.recv()
+                    res['app'] = 'returned'
+                except nfc.llcp.Error as e:
+                    res['app'] = 'llcp %d' % e.errno
+                except S.Abort:
+                    raise
+                except Exception as e:  # noqa
+                    res['app'] = 'exc ' + type(e).__name__
+            sch.spawn(app, 'app')
+            return True
+
+        nfc.dep.Initiator.activate = nfc.dep.Target.activate = fake_activate
+        try:
+            def body():
+                try:
+                    res['r'] = ('returned', clf.connect(llcp={'role': role if role != 'any' else None, 'on-connect': on_connect},
+                                                        terminate=peer.terminate_cb))
+                except SystemExit:
+                    res['r'] = ('SystemExit', None)
+                except Overrun:
+                    res['r'] = ('keeps-searching', res['after_end'])
+                except S.Abort:
+                    raise
+                except BaseException as e:  # noqa
+                    res['r'] = (type(e).__name__, str(e)[:60])
+            sch.spawn(body, 'main')
+            blocked = sch.run()
+            res['blocked'] = [sch.describe(b) for b in blocked]
+            res['livelock'] = sch.livelock
+            res['schedule'] = list(sch.schedule)
+            res['link_ended'] = peer.ended or peer.terminate_cb()
+            sch.shutdown()
+        finally:
+            nfc.dep.Initiator.activate, nfc.dep.Target.activate = saved
+    return res
+
+
+def connect_monitor(ck, cause, end_at, role, recover, res):
+    data = {'connect': True, 'cause': cause, 'end_at': end_at, 'role': role, 'recover': recover,
+            'result': res.get('r'), 'device_calls_after_end': res['after_end'], 'blocked': res['blocked'],
+            'app_thread': res.get('app'), 'schedule': res['schedule']}
+    r = res.get('r')
+    if not res['link_ended'] or res['activations'] == 0:
+        ck.count('connect:no-link')         # e.g. the terminate callback was true before the first activation
+        return
+    if res['livelock'] or r is None or (r[0] == 'keeps-searching'):
+        ck.violation('connect-hangs:' + cause,
+                     'ContactlessFrontend.connect() does not return after the llcp link ended by %s: it keeps searching for a '
+                     'peer (%d further device calls)' % (cause, res['after_end']), data)
+        return
+    if r[0] != 'returned':
+        ck.violation('connect-no-return:' + r[0],
+                     'ContactlessFrontend.connect() does not return to its caller when the llcp link ends by %s: %s escapes'
+                     % (cause, r[0]), data)
+        return
+    # a device that stays broken makes terminate() raise IOError from mac.deactivate(): documented result False
+    expect = CONNECT_EXPECT[cause] if recover else False
+    if r[1] is not expect:
+        ck.violation('connect-wrong-result:' + cause,
+                     'connect() returned %r after the llcp link ended by %s (device %s), documented: %r'
+                     % (r[1], cause, 'recovers' if recover else 'stays broken', expect), data)
+    if res['after_end'] > 1:
+        ck.violation('connect-late:' + cause, 'connect() made %d device calls after the link had ended before returning'
+                     % res['after_end'], data)
+    if res['blocked'] or res.get('app') is None or res['app'].startswith('exc'):
+        ck.violation('connect-thread-left:' + cause,
+                     'after connect() returned a thread is left waiting / died: app thread %r, blocked %r' % (res.get('app'), res['blocked']), data)
+
+
+def connect_returns(ck, only=None):
+    """connect() returns to its caller with the documented value, within a bounded number of device calls,
+    for every cause of the link end x exchange index x role x device recovering or not"""
+    quick = ck.tier == 'quick'
+    plan = list(CONNECT_CORPUS)
+    for cause in L.CAUSES:
+        for end_at in (0, 1, 2, 3):
+            for role in ('initiator', 'target'):
+                for recover in (True, False):
+                    if (cause, end_at, role, recover) not in plan:
+                        plan.append((cause, end_at, role, recover))
+    if only is not None:
+        plan = [only]
+    import random
+    for cause, end_at, role, recover in plan:
+        choosers = [None] + [S.RandomChooser(random.Random(ck.rng.randrange(1 << 30)), 0.3) for _ in range(1 if quick else 6)]
+        for ch in choosers:
+            res = connect_once(cause, end_at, role, recover, ch)
+            ck.case(('connect', cause, end_at, role, recover, tuple(res['schedule'])), True)
             ck.count('connect:' + cause)
-            r = res.get('r')
-            if blocked or r is None:
-                ck.violation('connect-hangs:' + cause, 'clf.connect() does not return after the link ended by ' + cause,
-                             {'cause': cause, 'role': role})
-            elif r[0] != 'returned':
-                ck.violation('connect-no-return:' + r[0],
-                             'clf.connect() does not return to its caller when the llcp run loop meets an error (%s): %s escapes'
-                             % (cause, r[0]), {'cause': cause, 'role': role, 'escaped': r})
+            connect_monitor(ck, cause, end_at, role, recover, res)
 
 
 def device_still_broken(ck):
@@ -778,6 +876,7 @@ def main():
                 sel.append({'scenario': name, 'cause': cause, 'end_at': ends[k], 'role': roles[(ci + len(name)) % 2]})
         extra = ck.rng.sample([p for p in plan if p not in sel], 40)
         plan = sel + extra
+    connect_returns(ck)          # starts with the corpus of minimised past failures
     for case in plan:
         runs, keys = explore(ck, case, per_case_budget, depth2, nrandom)
         total += runs
@@ -789,7 +888,6 @@ def main():
             runs, keys = explore(ck, case, 8 if quick else 120, 0, 2 if quick else 20)
             total += runs
             found |= keys
-    connect_returns(ck)
     device_still_broken(ck)
     ck.cov['schedules_run'] = total
     if CORR is not None:
@@ -819,7 +917,12 @@ def replay(ck):
         sys.exit(1 if bad else 0)
     key = data.get('key', '')
     if key.startswith('connect-'):
-        connect_returns(ck)
+        if case.get('connect'):
+            res = connect_once(case['cause'], case['end_at'], case['role'], case['recover'], S.Replay(case['schedule']))
+            print(json.dumps({k: res.get(k) for k in ('r', 'after_end', 'app', 'blocked')}, default=str))
+            connect_monitor(ck, case['cause'], case['end_at'], case['role'], case['recover'], res)
+        else:
+            connect_returns(ck)
     elif key.startswith('hang-device-broken'):
         device_still_broken(ck)
     else:
